@@ -271,6 +271,10 @@ func (e *fsEnv) runItem(it fsItem, writeOrd int) (*fsOutcome, error) {
 			e.child, "storeretryload", dir, "node", pf)
 	case "pause-sys":
 		return e.runPauseItem(it, dir, pf)
+	case "ctx-cancelled":
+		cmd = e.childCmd(e.child, "storecancelled", dir, "node", pf)
+	case "two-writers-one-process":
+		cmd = e.childCmd(e.child, "twowriters", dir, "node", pf)
 	default:
 		return nil, fmt.Errorf("unknown mode %s", it.Mode)
 	}
@@ -316,6 +320,13 @@ func (e *fsEnv) runItem(it fsItem, writeOrd int) (*fsOutcome, error) {
 	where := it.Mode
 	if it.Sys != "" {
 		where += "/" + it.Sys
+	}
+	for _, l := range strings.Split(so, "\n") {
+		if strings.HasPrefix(l, "TW ") && strings.Contains(l, "STOREOK-") {
+			o.sig = "C17/successful-store-not-loadable/" + where
+			o.detail = fmt.Sprintf("%s: of two goroutines storing the same node at once, one got nil from Store and then: %s", it, strings.TrimPrefix(l, "TW "))
+			return o, nil
+		}
 	}
 	var storeB, loadB string
 	for _, l := range strings.Split(so, "\n") {
@@ -475,6 +486,12 @@ func (e *fsEnv) fsEnumerate(tier string, seed uint64) ([]fsItem, map[int]int, ma
 	writeOrd := map[int]int{}
 	recs := map[int][]sysEvent{}
 	for _, sz := range sizes {
+		items = append(items, fsItem{Size: sz, Mode: "ctx-cancelled"})
+		if sz > 1<<20 {
+			for r := 0; r < 3; r++ {
+				items = append(items, fsItem{Size: sz, Mode: "two-writers-one-process", At: r})
+			}
+		}
 		offs := fsOffsets(sz, g, tier == "thorough")
 		for _, n := range offs {
 			items = append(items, fsItem{Size: sz, Mode: "eio-byte", At: n})
@@ -660,7 +677,7 @@ func RunFileStoreShard(t *testing.T, env *ShardEnv) *ShardReport {
 		}
 		// every injected run is executed twice and must be judged identically
 		o2 := o1
-		if it.Mode != "pause-sys" || o1.sig != "" {
+		if (it.Mode != "pause-sys" && it.Mode != "two-writers-one-process") || o1.sig != "" {
 			o2, err = e.runItem(it, writeOrd[it.Size])
 		}
 		rep.Evaluations++
